@@ -3,4 +3,4 @@ Require Extraction.
 Require Import ExtrOcamlBasic.
 From DV Require Import PendingCall.Pending.
 Extraction Language OCaml.
-Extraction "model_pending.ml" init step step1 run run1 next_serial block_with.
+Extraction "model_pending.ml" init init_at step step1 run run1 next_serial block_with.
